@@ -9,7 +9,12 @@ def is_any_dimension(factor: Expr) -> bool:
     absorbing nature.
     """
 
-    return factor in (S.Zero, S.Infinity, S.NegativeInfinity, S.NaN)
+    if factor in (S.Zero, S.Infinity, S.NegativeInfinity, S.NaN):
+        return True
+
+    # floating-point zero does not compare equal to `S.Zero`
+    is_float = isinstance(factor, float) or getattr(factor, "is_Float", False)
+    return bool(is_float and factor == 0.0)
 
 
 def is_number(value: Any) -> bool:
